@@ -53,6 +53,50 @@ theorem marg_is_log_mean (ls : List ℝ) (hne : ls ≠ []) (n : ℝ) (hn : 0 < n
     rw [he, Real.log_mul (div_pos hpos hn).ne' (Real.exp_pos _).ne', Real.log_exp]
     ring
 
+/-- dropping the draws without a finite log-likelihood first and combining the rest is the all-finite formula on the rest -/
+theorem logMeanExp_filter (fin : ℝ → Bool) (n : ℝ) (ls : List ℝ) :
+    logMeanExp fin n ls = logMeanExp (fun _ => true) n (ls.filter fin) := by
+  unfold logMeanExp
+  simp only [List.filter_true]
+
+theorem sum_ite_eq_sum_filter (fin : ℝ → Bool) (ls : List ℝ) :
+    (ls.map (fun l => if fin l then Real.exp l else 0)).sum = ((ls.filter fin).map Real.exp).sum := by
+  induction ls with
+  | nil => rfl
+  | cons l t ih =>
+    by_cases h : fin l = true
+    · simp only [List.map_cons, List.sum_cons, h, if_true, List.filter_cons_of_pos, ih]
+    · have h' : fin l = false := by simpa using h
+      simp only [List.map_cons, List.sum_cons, h', Bool.false_eq_true, if_false, zero_add, ih,
+        List.filter_cons_of_neg (by simpa using h')]
+
+/-- **a draw without a finite log-likelihood is a draw of likelihood ZERO, and it still counts**: with `n` the configured
+    number of draws, the marginalised value is `log((Σ_{finite draws} exp lᵢ) / n)` — the divisor is the number of draws
+    asked for, not the number of draws that happened to be finite. -/
+theorem marg_dropped_draws_count (fin : ℝ → Bool) (ls : List ℝ) (n : ℝ) (hn : 0 < n) (hne : ls.filter fin ≠ []) :
+    logMeanExp fin n ls = some (Real.log (((ls.filter fin).map Real.exp).sum / n)) := by
+  rw [logMeanExp_filter, marg_is_log_mean _ hne n hn]
+
+/-- the same statement as the N-draw mean of the likelihood `Lᵢ` with `Lᵢ = 0` for the non-finite draws -/
+theorem marg_is_mean_over_all_draws (fin : ℝ → Bool) (ls : List ℝ) (hne : ls.filter fin ≠ []) :
+    logMeanExp fin (ls.length : ℝ) ls
+      = some (Real.log ((ls.map (fun l => if fin l then Real.exp l else 0)).sum / (ls.length : ℝ))) := by
+  have hlen : (0 : ℝ) < (ls.length : ℝ) := by
+    have : ls ≠ [] := by
+      intro h; rw [h] at hne; exact hne rfl
+    exact_mod_cast List.length_pos_of_ne_nil this
+  rw [marg_dropped_draws_count fin ls _ hlen hne, sum_ite_eq_sum_filter]
+
+/-- dividing by the number of FINITE draws instead is a different (larger) value as soon as one draw is dropped:
+    two draws, one of them without a finite log-likelihood -/
+example : logMeanExp (fun l => decide (l ≠ 7)) 2 [0, 7] = some (Real.log (1 / 2)) ∧ Real.log (1 / 2) ≠ Real.log (1 / 1) := by
+  constructor
+  · rw [marg_dropped_draws_count _ _ 2 (by norm_num) (by simp)]
+    simp
+  · intro h
+    have := Real.log_lt_log (by norm_num : (0 : ℝ) < 1 / 2) (by norm_num : (1 / 2 : ℝ) < 1 / 1)
+    linarith
+
 /-- the mean of the likelihood is in general NOT the mean of the log-likelihood -/
 example : logMeanExp (fun _ => true) 2 [0, Real.log 3] = some (Real.log 2) ∧
     Real.log 2 ≠ (0 + Real.log 3) / 2 := by
